@@ -179,7 +179,6 @@ InitSt ==
   [ buf |-> [b \in Bufs |-> <<>>],
     fs |-> [b \in Bufs |-> FALSE], fe |-> [b \in Bufs |-> FALSE],
     sp |-> [b \in Bufs |-> FALSE],          \* may hold file-segment / multicast chains
-    ec |-> [b \in Bufs |-> FALSE],          \* empty, but may own an (empty) chain
     mo |-> [b \in Bufs |-> FALSE],
     tag |-> [b \in Bufs |-> <<>>],          \* per symbol: 0 plain, else the id of the reference / file segment / multicast copy it lives in
     nid |-> 0,                               \* ids handed out so far
@@ -445,9 +444,6 @@ OpSane(S, op) ==
   \* AvoidKnown: reserve_space(0, vec, n >= 2) on a buffer whose last chain is full trips an assertion
   \* (finding reserve-zero-full-chain); it is replayed separately under "rz0" \in Acts
   /\ (op.a = "rescommit" /\ op.nb = 0 /\ op.nv > 1 => "rz0" \in Acts)
-  \* AvoidKnown: add_buffer_reference into an empty buffer that still owns an empty chain uses the chain
-  \* after freeing it (finding addbufref-empty-dst-chain); replayed separately under "abr0" \in Acts
-  /\ (op.a = "addbufref" /\ S.ec[op.b] /\ S.buf[op.s] # <<>> => "abr0" \in Acts)
   \* AvoidKnown: moving multicast chains back into the buffer they reference creates a reference cycle
   \* (the buffer holds a reference on itself and is never freed; finding multicast-self-reference-cycle)
   /\ (op.a \in {"addbuf", "prependbuf"} /\ op.s # op.b /\ S.mo[op.s] => "cyc" \in Acts)
@@ -462,9 +458,6 @@ OpSane(S, op) ==
   /\ ("cyc" \in Acts => KnownCyc(Len(hist), op))
   /\ (op.a = "evread" => Fits(S, op.b, S.fdin \o op.d) /\ Bytes(S.fdin \o op.d) <= 4096 /\ (op.e # 0 => op.k = -1))
   /\ (op.a \in {"evwrite", "sfwrite"} => (op.e # 0 => op.k = -1))
-  \* AvoidKnown: evbuffer_write_sendfile ignores howmuch (finding sendfile-ignores-howmuch): only generate
-  \* sendfile writes whose howmuch does not bind, or where the scripted system call stops first
-  /\ (op.a = "sfwrite" /\ op.e = 0 /\ op.n >= 0 /\ op.n < Len(Drop(op.d, op.off)) /\ (op.k < 0 \/ op.k > op.n) => "sfhm" \in Acts)
   \* C15 predicts the moment of every cleanup: zero-length segments sit in an empty chain whose release is layout-dependent
   /\ (op.a = "addfile" /\ "c15" \in Acts => (op.off < Len(op.d) /\ op.len # 0))
   /\ (op.a = "freeze" => ~(IF op.w = 1 THEN S.fs[op.b] ELSE S.fe[op.b]))
@@ -483,11 +476,7 @@ Obs(S, o0) == LET o == IF "c15" \in Acts THEN o0 @@ ObsC(S) ELSE o0 IN IF CbMode
 (* One call: the new state and the complete observation *)
 StepR(S, op) ==
   LET Rr == ApplyOp([S EXCEPT !.cblog = <<>>], op)
-      S2 == [Rr.s EXCEPT !.ec = [b \in Bufs |->
-                IF Rr.s.buf[b] # <<>> THEN FALSE
-                ELSE IF op.a \in {"expand", "add", "printf", "rescommit", "addiov", "addfile"} /\ op.b = b /\ Rr.o.r # -1 THEN TRUE
-                ELSE IF S.buf[b] # <<>> THEN FALSE ELSE S.ec[b]],
-                          !.mo = [b \in Bufs |->
+      S2 == [Rr.s EXCEPT !.mo = [b \in Bufs |->
                 IF Rr.s.buf[b] = <<>> THEN FALSE
                 ELSE IF op.a = "addbufref" /\ op.b = b /\ op.s # b /\ Rr.o.r = 0 /\ S.buf[op.s] # <<>> THEN TRUE
                 ELSE S.mo[b]],
